@@ -43,6 +43,7 @@ type world struct {
 	dl    mangos.Dialer
 	pipes []mangos.Pipe
 	close bool // hook closes the next pipe during Attaching
+	closeAttached bool // hook closes the next pipe from within its Attached callback
 	n     int
 	byAddr map[string]int // pipes attached so far, by the address of the endpoint that made them
 }
@@ -152,6 +153,62 @@ var failures = []failure{
 		if !p.ClosedByMangos() {
 			kit.Failf("hook-close-ignored", "the pipe closed by the hook during Attaching stayed open")
 		}
+		kit.Count("error-provoked")
+	}},
+	{"hook-closes-pipe-during-attached", nil, func(w *world) {
+		// closing a pipe from within its own Attached callback is legal; the accept loop (or the
+		// dialer) that delivers the callback must survive it
+		w.dropAllPeers()
+		w.closeAttached = true
+		p := w.x.EP.Connect()
+		kit.Quiesce()
+		if w.closeAttached {
+			// (no Attached event: a one-peer pattern refused the connection)
+			w.closeAttached = false
+		} else if !p.ClosedByMangos() {
+			kit.Failf("hook-close-ignored", "the pipe closed by the hook from its Attached callback stayed open")
+		}
+		kit.Count("error-provoked")
+	}},
+	{"inproc-listen-address-in-use-then-loser-closed", nil, func(w *world) {
+		// our socket listens on an inproc address; another socket's Listen on the same address
+		// fails and that listener (and its socket) is closed: ours must still be reachable
+		w.n++
+		addr := fmt.Sprintf("inproc://c12-dup%d", w.n)
+		if err := call("Listen(inproc)", 0, func() error { return w.x.S.Listen(addr) }); err != nil {
+			kit.Failf("inproc-listen", "Listen(%s): %s", addr, kit.ErrName(err))
+		}
+		other, err := w.k.New()
+		if err != nil {
+			kit.Failf("setup", "NewSocket: %v", err)
+		}
+		l, err := other.NewListener(addr, nil)
+		if err != nil {
+			kit.Failf("newlistener", "NewListener: %s", kit.ErrName(err))
+		}
+		expect("Listen(inproc address in use)", call("Listen-dup", 0, l.Listen), mangos.ErrAddrInUse)
+		_ = call("Listener.Close(loser)", 0, l.Close)
+		_ = call("Socket.Close(loser)", 0, other.Close)
+		// a listener that was created but never started, closed again
+		l2, err := w.x.S.NewListener(addr, nil)
+		if err == nil {
+			_ = call("Listener.Close(never started)", 0, l2.Close)
+		}
+		w.dropAllPeers()
+		before := len(w.pipes)
+		peer, err := w.k.NewPeer()
+		if err != nil {
+			kit.Failf("setup", "NewSocket(peer): %v", err)
+		}
+		if err := call("Dial(inproc)", 0, func() error { return peer.Dial(addr) }); err != nil {
+			kit.Failf("listener-unregistered-by-another-close", "%s: a listener that had lost the race for %s was closed; now Dial to the address of the listener that won returns %s", w.k.Name, addr, kit.ErrName(err))
+		}
+		kit.Quiesce()
+		if w.byAddr[addr] != 1 && !(w.single() && len(w.pipes) > before) {
+			kit.Failf("listener-stopped-accepting:inproc", "%s: the inproc peer dialed but did not attach", w.k.Name)
+		}
+		_ = call("Socket.Close(peer)", 0, peer.Close)
+		kit.Quiesce()
 		kit.Count("error-provoked")
 	}},
 	{"peer-drops-connection", nil, func(w *world) {
@@ -510,6 +567,12 @@ func (w *world) followups() {
 }
 
 func (w *world) hook(ev mangos.PipeEvent, p mangos.Pipe) {
+	if ev == mangos.PipeEventAttached && w.closeAttached {
+		w.closeAttached = false
+		w.pipes = append(w.pipes, p)
+		_ = p.Close()
+		return
+	}
 	if ev == mangos.PipeEventAttaching && w.close {
 		w.close = false
 		_ = p.Close()
